@@ -39,4 +39,10 @@ with ThreadPoolExecutor(int(os.environ.get('MATRIX_JOBS', '4'))) as ex:
 if not only:
     with open(V + '/seeded/MATRIX.md', 'w') as f:
         f.write('# Which check catches which change (%s tier)\n\n| kind | change | check | exit | first violation |\n|---|---|---|---|---|\n' % tier)
+        sib = {}
+        for r in rows:
+            if r[0] == 'seeded' and r[3] == 1:
+                sib.setdefault(r[1], []).append(r[2])
+        rows = [(r[0], r[1], r[2], r[3], ('(not by this check; caught by %s, see the next row(s) - `also_check` in its meta.json)' % ', '.join(sib[r[1]]))
+                 if (r[0] == 'seeded' and r[3] == 0 and not r[4] and r[1] in sib and r[1] not in neutral and r[1] not in not_caught) else r[4]) for r in rows]
         for r in rows: f.write('| %s | %s | %s | %d | %s |\n' % (r[0], r[1], r[2], r[3], ('NEUTRALISED at HEAD: ' + neutral[r[1]]) if (r[1] in neutral and r[3] == 0) else ('NOT CAUGHT (documented): ' + not_caught[r[1]][:300]) if (r[1] in not_caught and r[3] == 0) else r[4].replace('|', '/')))
